@@ -253,6 +253,7 @@ def run(P: Program, R: Report, tier: str) -> None:
         R.check(len(rebinds) == 1, "R17.6", f, rebinds[-1] if rebinds else f.node, f"{f.name}: the working copy is bound once and then only shrunk", f"{len(rebinds)} bindings", via="dataflow")
     R.floor("R17.3", "stores into mapping/accumulators", n_store, 8)
     R.floor("R17.1", "removals", n_rem, 4)
+    inferred_map_unfiltered(P, R, "R17.7")
 
     # ---- pipelines: the function(s) that run the matching steps
     pipes = [f for f in mfuncs if sum(1 for c in ast.walk(f.node) if isinstance(c, ast.Call) and (call_name(c) or "").startswith("_match")) >= 2]
@@ -320,3 +321,36 @@ def run(P: Program, R: Report, tier: str) -> None:
 def _complement(a: str, b: str) -> bool:
     """`x in y` vs `x not in y` style complements"""
     return a.replace(" not in ", " in ") == b.replace(" not in ", " in ") and a != b
+
+
+def inferred_map_unfiltered(P: Program, R: Report, rule: str) -> None:
+    """What the builder hands out as the inferred map IS the inference result: a filter applied afterwards (e.g. dropping
+    keys that also occur in the node map) removes columns from the partition without putting them anywhere."""
+    tb = P.class_named("TracksBuilder")
+    n = 0
+    for name in ("infer_node_name_map", "infer_edge_name_map"):
+        m = tb.methods.get(name) if tb else None
+        if m is None:
+            continue
+        inferred = {t.id for s_ in ast.walk(m.node) if isinstance(s_, ast.Assign) and isinstance(s_.value, ast.Call) and (call_name(s_.value) or "").startswith("infer_")
+                    for t in s_.targets if isinstance(t, ast.Name)}
+        for r in [x for x in ast.walk(m.node) if isinstance(x, ast.Return) and x.value is not None]:
+            v = r.value
+            if isinstance(v, ast.Call) and (call_name(v) or "").startswith("infer_"):
+                n += 1
+                R.ok(rule, m, r, f"{m.short} returns the inference result as it is", via="dataflow")
+            elif isinstance(v, ast.Name) and v.id in inferred:
+                n += 1
+                mutated = any(isinstance(x, ast.Call) and isinstance(x.func, ast.Attribute) and norm(x.func.value) == v.id and x.func.attr in ("pop", "clear", "popitem")
+                              or (isinstance(x, ast.Delete) and any(norm(t_).startswith(v.id + "[") for t_ in x.targets)) for x in ast.walk(m.node))
+                R.check(not mutated, rule, m, r, f"{m.short} returns the inference result as it is", "entries are removed from the inferred map before it is returned", via="dataflow")
+            elif isinstance(v, (ast.DictComp,)) and v.generators and v.generators[0].ifs and any(isinstance(x, ast.Name) and x.id in inferred for x in ast.walk(v.generators[0].iter)):
+                n += 1
+                R.fail(rule, m, r, f"{m.short} returns the inference result as it is",
+                       f"`{norm(v)[:80]}` filters the inferred map: the source columns behind the dropped keys are assigned nowhere (and the result depends on what "
+                       "the builder inferred before)")
+            elif isinstance(v, (ast.Dict, ast.Constant)):
+                continue
+            else:
+                R.undecided(rule, m, r, f"{m.short} returns the inference result as it is", f"return value `{norm(v)[:60]}` not recognised")
+    R.floor(rule, "builder methods returning an inferred map", n, 2)
